@@ -24,7 +24,32 @@ func c01Gen(r *rand.Rand, n int, tier string, emit func(input ...string)) {
 	}
 	for i := 0; i < n; i++ {
 		s, cfg, kind := refh.RandomScenario(r, maxEv, false)
+		small := tier == "thorough" && i%8 == 7
+		if small {
+			// small scope, exhaustively: every parents-first order of a DAG of <= 7 events
+			for len(s.VIDs) > 3 {
+				s.VIDs, s.Ws = s.VIDs[:len(s.VIDs)-1], s.Ws[:len(s.Ws)-1]
+			}
+			nv := len(s.VIDs)
+			cfg.Lag, cfg.Group, cfg.Cheat = cfg.Lag[:nv], cfg.Group[:nv], make([]bool, nv)
+			cfg.Lag[0] = 4
+			cfg.NEvents, cfg.MaxPar, cfg.PartUntil = 6+r.Intn(3), 1+r.Intn(2), 0
+			kind = "exhaustive"
+		}
 		refh.Generate(r, s, cfg)
+		if small {
+			all := refh.LinearExtensions(s, 5041)
+			vu.Stat("scn_" + kind)
+			vu.StatN("linear_extensions", len(all))
+			for from := 0; from < len(all) && from < 720; from += 60 {
+				extra := []string{}
+				for j := from; j < from+60 && j < len(all); j++ {
+					extra = append(extra, "7:"+strconv.Itoa(j))
+				}
+				emit(s.Tokens(append([]string{strconv.Itoa(len(extra))}, extra...))...)
+			}
+			continue
+		}
 		vu.Stat("scn_" + kind)
 		vu.Stat("nv_" + strconv.Itoa(len(s.VIDs)))
 		// three independently shuffled orders + two adversarial ones
@@ -57,7 +82,7 @@ func c01Run(in []string) []string {
 		if len(ks) > 1 {
 			seed, _ = strconv.ParseInt(ks[1], 10, 64)
 		}
-		vu.Stat("order_kind_" + strconv.Itoa(kind%7))
+		vu.Stat("order_kind_" + strconv.Itoa(kind%8))
 		order := refh.Order(s, kind, seed)
 		inst := refh.NewInst(s)
 		ids := map[int]*tdag.TestEvent{}
